@@ -13,6 +13,8 @@ use std::time::{Duration, Instant};
 pub enum Node {
     Dir,
     File(Vec<u8>),
+    /// fifo, socket, device: never read
+    Special,
 }
 
 pub type Tree = BTreeMap<String, Node>;
@@ -68,6 +70,7 @@ impl Observed {
             d.str(p);
             match n {
                 Node::Dir => d.u64(1),
+                Node::Special => d.u64(2),
                 Node::File(b) => d.bytes(b),
             }
         }
@@ -122,6 +125,8 @@ fn snapshot(root: &Path) -> Tree {
             if ft.is_dir() {
                 t.insert(p.clone(), Node::Dir);
                 walk(root, &p, t);
+            } else if !ft.is_file() && !ft.is_symlink() {
+                t.insert(p, Node::Special);
             } else {
                 t.insert(p, Node::File(fs::read(e.path()).unwrap_or_default()));
             }
@@ -177,12 +182,23 @@ pub fn run(env: &Env, spec: &RunSpec) -> Observed {
             simcommon::harness_error(&format!("cannot prepare {}: {}", fp.display(), e));
         }
     }
+    for (p, _) in &spec.fifos {
+        let fp = cwd.join(p);
+        if let Some(parent) = fp.parent() {
+            let _ = fs::create_dir_all(parent);
+        }
+        let ok = Command::new("mkfifo").arg(&fp).status().map(|s| s.success()).unwrap_or(false);
+        if !ok {
+            simcommon::harness_error(&format!("mkfifo {} failed", fp.display()));
+        }
+    }
     let before = snapshot(&cwd);
     let out_p = base.join("stdout");
     let err_p = base.join("stderr");
     let log_p = base.join("log");
     let in_p = base.join("stdin");
     let stdin = match &spec.stdin {
+        Some(_) if spec.stdin_pipe => Stdio::piped(),
         Some(b) => {
             fs::write(&in_p, b).unwrap();
             Stdio::from(fs::File::open(&in_p).unwrap())
@@ -209,6 +225,51 @@ pub fn run(env: &Env, spec: &RunSpec) -> Observed {
         Ok(c) => c,
         Err(e) => simcommon::harness_error(&format!("cannot spawn {}: {}", env.cli.display(), e)),
     };
+    // feeders: standard input through a pipe, and the named pipes. They give up
+    // when the child is gone (a reader may never show up).
+    let done = std::sync::Arc::new(std::sync::atomic::AtomicBool::new(false));
+    let mut feeders = vec![];
+    if spec.stdin_pipe {
+        if let (Some(mut w), Some(b)) = (child.stdin.take(), spec.stdin.clone()) {
+            feeders.push(std::thread::spawn(move || {
+                use std::io::Write;
+                // two pieces, so that a single read cannot see everything
+                let h = b.len() / 2;
+                let _ = w.write_all(&b[..h]);
+                let _ = w.flush();
+                let _ = w.write_all(&b[h..]);
+            }));
+        }
+    }
+    for (p, content) in &spec.fifos {
+        let fp = cwd.join(p);
+        let content = content.clone();
+        let done = done.clone();
+        feeders.push(std::thread::spawn(move || {
+            use std::io::Write;
+            use std::os::unix::fs::OpenOptionsExt;
+            loop {
+                if done.load(std::sync::atomic::Ordering::Relaxed) {
+                    return;
+                }
+                // O_NONBLOCK: opening a fifo for writing fails with ENXIO until a reader exists
+                match fs::OpenOptions::new().write(true).custom_flags(0o4000).open(&fp) {
+                    Ok(mut f) => {
+                        let mut off = 0;
+                        while off < content.len() && !done.load(std::sync::atomic::Ordering::Relaxed) {
+                            match f.write(&content[off..]) {
+                                Ok(n) => off += n,
+                                Err(e) if e.kind() == std::io::ErrorKind::WouldBlock => std::thread::sleep(Duration::from_micros(100)),
+                                Err(_) => return,
+                            }
+                        }
+                        return;
+                    }
+                    Err(_) => std::thread::sleep(Duration::from_micros(200)),
+                }
+            }
+        }));
+    }
     let t0 = Instant::now();
     let mut nap = Duration::from_micros(100);
     let mut timed_out = false;
@@ -229,6 +290,10 @@ pub fn run(env: &Env, spec: &RunSpec) -> Observed {
             Err(e) => simcommon::harness_error(&format!("wait: {}", e)),
         }
     };
+    done.store(true, std::sync::atomic::Ordering::Relaxed);
+    for f in feeders {
+        let _ = f.join();
+    }
     let log = fs::read_to_string(&log_p).unwrap_or_default();
     let (injected, calls, handshake) = parse_log(&log);
     if !handshake {
